@@ -129,4 +129,50 @@ def averageId {α} [WNum α] (m : Mode) (rows : List Row) (maxc : Nat) (sampled 
 def averageMatch {α} [WNum α] (m : Mode) (rows : List Row) (maxc : Nat) (sampled : List (Nat × Nat)) : α :=
   average (pmatch m) rows maxc sampled
 
+/-! ## esl_dst_{C,X}JukesCantorMx -/
+
+/-- entry (a, b) of the two matrices: `D->mx[i][i] = V->mx[i][i] = 0.`, the upper triangle computed by
+    `esl_dst_{C,X}JukesCantor(as[i], as[j])`, i < j, and mirrored -/
+def jcMxEntry {α} [WLog α] (j : JCMode) (K : Nat) (rows : List Row) (a b : Nat) : JCResult α :=
+  if a == b then .ok (ofNat 0) (ofNat 0)
+  else if a < b then jukesCantor j K (rows.getD a []) (rows.getD b [])
+  else jukesCantor j K (rows.getD b []) (rows.getD a [])
+
+/-- the status the matrix routine throws: that of the first pair (row-major, i < j) whose distance call fails
+    (eslEINVAL unaligned, eslEDIVZERO no compared column); both matrices are then returned NULL -/
+def jcMxError {α} [WLog α] (j : JCMode) (K : Nat) (rows : List Row) : Option (JCResult α) :=
+  (upperPairs rows.length).findSome? fun p =>
+    match jukesCantor (α := α) j K (rows.getD p.1 []) (rows.getD p.2 []) with
+    | .einval => some .einval
+    | .edivzero => some .edivzero
+    | _ => none
+
+/-- `esl_dst_{C,X}JukesCantorMx`: `none` after a failure, else the N×N table of (distance, variance) entries -/
+def jukesCantorMx {α} [WLog α] (j : JCMode) (K : Nat) (rows : List Row) : Except (JCResult α) (List (List (JCResult α))) :=
+  match jcMxError (α := α) j K rows with
+  | some e => .error e
+  | none => .ok ((List.range rows.length).map fun a => (List.range rows.length).map fun b => jcMxEntry j K rows a b)
+
+/-! ## esl_dst_XAvgConnectivity, esl_dst_XAvgSubsetConnectivity -/
+
+/-- `if (id > idthresh) avgconn += 1.; avgid += id;` over the given pairs, then both divided by `denom` -/
+def connOver {α} [WNum α] (f : Row → Row → α) (thresh : α) (rows : List Row) (pairs : List (Nat × Nat)) (denom : Nat) : α × α :=
+  let acc := pairs.foldl (fun (acc : α × α) p =>
+    let id := f (rows.getD p.1 []) (rows.getD p.2 [])
+    (acc.1 + id, if ltb thresh id then acc.2 + ofNat 1 else acc.2)) (ofNat 0, ofNat 0)
+  (acc.1 / ofNat denom, acc.2 / ofNat denom)
+
+/-- `esl_dst_XAvgConnectivity`: (avgid, avgconn); the same three branches as `esl_dst_XAverageId` -/
+def avgConnectivity {α} [WNum α] (f : Row → Row → α) (rows : List Row) (maxc : Nat) (thresh : α)
+    (sampled : List (Nat × Nat)) : α × α :=
+  let N := rows.length
+  if N ≤ 1 then (ofNat 1, ofNat 1)
+  else if exhaustive N maxc then connOver f thresh rows (allPairs N) (N * (N - 1) / 2)
+  else connOver f thresh rows sampled maxc
+
+/-- `esl_dst_XAvgSubsetConnectivity`: the same computation on the rows `ax[V[0]], …, ax[V[nV-1]]` (the rolls are over nV) -/
+def avgSubsetConnectivity {α} [WNum α] (f : Row → Row → α) (rows : List Row) (V : List Nat) (maxc : Nat) (thresh : α)
+    (sampled : List (Nat × Nat)) : α × α :=
+  avgConnectivity f (V.map fun v => rows.getD v []) maxc thresh sampled
+
 end EaselModel.Weights
